@@ -108,6 +108,10 @@ struct AActor
 #[derive(Clone, Debug)]
 struct AEnt
 {
+    /// Harness holds an auto-despawn signal for this entity.
+    signal: bool,
+    /// The signal has been dropped: despawned (with descendants) by the next garbage collection.
+    doomed: bool,
     alive: bool,
     comps: [Option<u8>; 2],
     parent: Option<EntId>,
@@ -300,6 +304,8 @@ pub struct Monitor<'a>
     desynced: bool,
     last_top_op: Option<Op>,
     tree_polled_since_top: bool,
+    last_event_was_root_exit: bool,
+    revoked_since_table_ok: bool,
 }
 
 fn comp_idx(c: Comp) -> usize { match c { Comp::A => 0, Comp::B => 1 } }
@@ -313,7 +319,7 @@ impl<'a> Monitor<'a>
             alive: true, doomed: false, must_be_dead: false, variant: *v, runs: 0, once: false, once_ran: false,
             refcounted: false, sampled_from: 0, canary_dropped: false, killed: false,
         }).collect();
-        let mut ents: Vec<AEnt> = (0..cfg.n_ents).map(|_| AEnt{ alive: true, comps: [None, None], parent: None }).collect();
+        let mut ents: Vec<AEnt> = (0..cfg.n_ents).map(|i| AEnt{ signal: cfg.auto_ents.contains(&i), doomed: false, alive: true, comps: [None, None], parent: None }).collect();
         for (c, p) in cfg.children.iter() { ents[*c as usize].parent = Some(*p); }
         Monitor{
             cfg, actors, ents,
@@ -329,6 +335,8 @@ impl<'a> Monitor<'a>
             desynced: false,
             last_top_op: None,
             tree_polled_since_top: false,
+            last_event_was_root_exit: false,
+            revoked_since_table_ok: false,
         }
     }
 
@@ -384,6 +392,15 @@ impl<'a> Monitor<'a>
     /// A garbage collection is happening now: doomed actors die.
     fn gc_point(&mut self)
     {
+        // auto-despawned trigger entities go first (recursively); whatever their despawn releases is collected by the
+        // same garbage collection
+        let doomed: Vec<EntId> = (0..self.ents.len() as EntId).filter(|e| self.ents[*e as usize].doomed).collect();
+        for e in doomed
+        {
+            self.ents[e as usize].doomed = false;
+            self.kill_ent(e, true);
+        }
+        self.update_refcounts();
         for a in self.actors.iter_mut()
         {
             if a.doomed && a.alive
@@ -700,10 +717,15 @@ impl<'a> Monitor<'a>
                 self.add_actor(id, variant, true);
                 self.register(id, &b, Mode::Revokable, issued.token);
             }
-            Op::Revoke(k) => { self.revoke(k); }
+            Op::Revoke(k) => { self.revoke(k); self.revoked_since_table_ok = true; }
             Op::Gc => { self.gc_point(); }
             Op::Poll => { self.gc_irrelevant(); }
             Op::Nop => {}
+            Op::DropSignal(e) =>
+            {
+                let x = &mut self.ents[e as usize];
+                if x.signal { x.signal = false; if x.alive { x.doomed = true; } }
+            }
         }
     }
 
@@ -1737,6 +1759,12 @@ impl<'a> Monitor<'a>
         {
             if !*has { residue.push(format!("system command {:?} has no callback", n)); }
         }
+        // when the flush ended with the end of a tree, every signal sent in it has been collected
+        if self.last_event_was_root_exit
+        {
+            if snap.auto_despawn_pending != 0 { residue.push(format!("auto-despawn {} signals not collected", snap.auto_despawn_pending)); }
+            if snap.despawn_tracker_pending != 0 { residue.push(format!("despawn-notices {} not processed", snap.despawn_tracker_pending)); }
+        }
         if !residue.is_empty()
         {
             let sig = residue.iter().map(|s| s.split(' ').next().unwrap_or("").to_string()).collect::<Vec<_>>().join("+");
@@ -1770,10 +1798,19 @@ impl<'a> Monitor<'a>
         imp.sort();
         if abs != imp && !self.desynced
         {
-            let prop = if imp.len() > abs.len() { "C06" } else { "C01" };
+            // a table that differs from the spec means inexact dispatch (C01); if a revocation was applied since the
+            // tables last agreed, revocation was not complete / local (C06)
+            let kind = if imp.len() > abs.len() { "extra" } else if imp.len() < abs.len() { "missing" } else { "different" };
+            if self.revoked_since_table_ok
+            {
+                self.viol("C06", "R-table", format!("table-mismatch-after-revoke:{kind}"),
+                    format!("registration tables differ after a revocation: spec {:?} implementation {:?}", abs, imp));
+            }
+            let prop = "C01";
             self.viol(prop, "R-table", format!("table-mismatch:{}", if imp.len() > abs.len() { "extra" } else if imp.len() < abs.len() { "missing" } else { "different" }),
                 format!("registration tables differ: spec {:?} implementation {:?}", abs, imp));
         }
+        if abs == imp { self.revoked_since_table_ok = false; }
         self.state_hash();
         self.root_sub_boundary = self.pos;
     }
@@ -1782,6 +1819,10 @@ impl<'a> Monitor<'a>
     {
         self.pos = pos;
         self.out.transitions += 1;
+        if !matches!(ev, TEv::Quiescent{ .. })
+        {
+            self.last_event_was_root_exit = matches!(ev, TEv::Hook(Hook::RunnerExit{ counter: 0, .. }));
+        }
         if self.desynced { if let TEv::Panic(m) = ev { self.viol("*", "panic", "panic".into(), m.clone()); } return; }
         match ev
         {
